@@ -25,8 +25,9 @@ LEVEL_TEXT = ('Decides clauses C01-a..g: at each site that maps methods to per-m
               'ble child (a param pattern being matched by any existing param child), and `children` grows nowhere else; mounting assigns the handler of the node at '
               'the mount point only from a handler the mounted root has (never erases a registered one). C01-j: the normalised request path stored by Path::init_with'
               '_request_bytes has the length of the request target, or that length minus one only under a test that the last byte is a slash, the subtraction not bei'
-              'ng repeated (one trailing slash is ignored, not all: a path with an extra empty trailing segment matches nothing). Decides these clauses, not segment-'
-              'matching semantics over all route sets and paths.')
+              "ng repeated (one trailing slash is ignored, not all: a path with an extra empty trailing segment matches nothing). The HEAD arm's body drop is on ever"
+              'y path once the method test answered HEAD (no status-dependent exception). Decides these clauses, not segment-matching semantics over all route sets a'
+              'nd paths.')
 
 METHODS = ["GET", "PUT", "POST", "PATCH", "DELETE", "OPTIONS"]
 
